@@ -21,7 +21,8 @@ Chunks(s, n) == [k \in 1..((Len(s) + n - 1) \div n) |-> SubSeq(s, (k - 1) * n + 
 Sp(tokens, pad, prefix, suffix) == [tokens |-> tokens, pad |-> pad, prefix |-> prefix, suffix |-> suffix]
 Wraps == {<< <<>>, <<>> >>, << <<"<b>">>, <<>> >>, << <<>>, <<"<e>">> >>, << <<"<b>", "<b>">>, <<"<e>", "<p>">> >>}
 
-TextCases ==
+Fam(f) == IOEnv.FAMILY = f
+TextCases == IF ~Fam("text") THEN {} ELSE
     LET texts == SetToSeq(SeqsOver(1..8, MaxLen))
         chunks == Chunks(texts, 200)
         toks == <<"<p>", "<u>", "<b>", "<e>", "<pad>">>
@@ -34,7 +35,7 @@ TextCases ==
             w \in Wraps, g \in BOOLEAN, u \in {"<u>", "<oov>"}, c \in 1..Len(chunks) }
 
 Spell == IF MaxToks >= 4 THEN {"<p>", "<u>", "<pad>", "<e>"} ELSE {"<p>", "<u>", "<pad>"}
-TokLists == {t \in SeqsOver(Spell, MaxToks) : \E k \in 1..Len(t) : t[k] = "<pad>"}
+TokLists == IF ~Fam("vocab") THEN {} ELSE {t \in SeqsOver(Spell, MaxToks) : \E k \in 1..Len(t) : t[k] = "<pad>"}
 VocabCasesOf(t) ==
     { [kind |-> "byte", special |-> Sp(t, "<pad>", pre, suf), g |-> FALSE, pad_to |-> pt,
        groups |-> "bytes", agg |-> "sum", unk |-> "<u>", slots |-> << <<1, 5, 6, 7, 4>> >>] :
@@ -46,17 +47,15 @@ VocabCasesOf(t) ==
 VocabCases == UNION {VocabCasesOf(t) : t \in TokLists}
 
 ByteStrs == UNION {[1..k -> 1..NB] : k \in 2..MaxEntry}
-Tables == {t \in UNION {[1..k -> ByteStrs] : k \in 0..MaxTab} : B!WellFormed(t)}
+Tables == IF ~Fam("bpe") THEN {} ELSE {t \in UNION {[1..k -> ByteStrs] : k \in 0..MaxTab} : B!WellFormed(t)}
 BpeCasesOf(t, texts) ==
     { [kind |-> "bpe", special |-> Sp(<<"<pad>", "<b>">>, "<pad>", w[1], w[2]), g |-> FALSE, pad_to |-> 0,
        groups |-> "bytes", agg |-> "mean", unk |-> "<u>", tabslots |-> t, max_vocab |-> mv, bslots |-> texts] :
          w \in {<< <<>>, <<>> >>, << <<"<b>">>, <<"<pad>">> >>},
          mv \in {0} \cup {258 + k : k \in 0..Len(t)} }
-BpeCases == LET texts == SetToSeq(SeqsOver(0..NB, MaxLen)) IN UNION {BpeCasesOf(t, texts) : t \in Tables}
+BpeCases == IF ~Fam("bpe") THEN {} ELSE LET texts == SetToSeq(SeqsOver(0..NB, MaxLen)) IN UNION {BpeCasesOf(t, texts) : t \in Tables}
 
-Cases == CASE IOEnv.FAMILY = "text" -> TextCases
-           [] IOEnv.FAMILY = "vocab" -> VocabCases
-           [] OTHER -> BpeCases
+Cases == TextCases \cup VocabCases \cup BpeCases
 VARIABLE x
 Init == x = 0 /\ ndJsonSerialize(IOEnv.OUT, SetToSeq(Cases))
 Next == UNCHANGED x
